@@ -11,7 +11,7 @@ import (
 func init() {
 	register(&propInfo{
 		id: "C11", fn: checkC11, multiConfig: true,
-		explanation: "The chunk loop's behaviour is arithmetic over runtime sizes; decided are its dataflow invariants: (r1) delegation — ReadAt/WriteAt return chunk(c.client.payloadSize, c.readAt|c.writeAt, p, offset), the single-message primitives readAt/writeAt are referenced nowhere else, and tread/twrite requests are constructed only inside them; (r2) window — every slice of p passed to fn inside the loop starts at the running total and ends at len(p) exactly on the path where len(p) < total+chunkSize, and at total+chunkSize otherwise (or at a variable clamped that way), so each chunk lies inside p and is at most chunkSize long; (r3) lock-step accumulators — total and offset are both advanced by the n returned by that very call, once per iteration, before any exit test; (r4) exits — the loop returns (total, err) on the first non-nil error, (total, nil) on n < chunkSize and on total == len(p), no operation is issued when total == len(p) already holds (no spurious extra request at an exact multiple), the zero-length case calls fn exactly once, and n is never discarded; (r5) single-message primitives — readAt sends Count = uint32(len(p)) with the caller's offset and offers p as payload destination, copies when the decoded payload does not alias p, returns len(Data) and io.EOF exactly under len(Data) == 0 && len(p) > 0; writeAt sends p un-copied with the caller's offset and returns the server's count. (r6, continued) largestFixedSize really is the largest fixed size (C13.r4) and the payload size in force is derived from the announced message size (C12.r5); (r7) the reply of each chunk is received whole however the transport segments it (the vectored-read rules C17.r2/r3).",
+		explanation: "The chunk loop's behaviour is arithmetic over runtime sizes; decided are its dataflow invariants: (r1) delegation — ReadAt/WriteAt return chunk(c.client.payloadSize, c.readAt|c.writeAt, p, offset), the single-message primitives readAt/writeAt are referenced nowhere else, and tread/twrite requests are constructed only inside them; (r2) window — every slice of p passed to fn inside the loop starts at the running total and ends at len(p) exactly on the path where len(p) < total+chunkSize, and at total+chunkSize otherwise (or at a variable clamped that way), so each chunk lies inside p and is at most chunkSize long; (r3) lock-step accumulators — total and offset are both advanced by the n returned by that very call, once per iteration, before any exit test; (r4) exits — the loop returns (total, err) on the first non-nil error, (total, nil) on n < chunkSize and on total == len(p), no operation is issued when total == len(p) already holds (no spurious extra request at an exact multiple), the zero-length case calls fn exactly once, and n is never discarded; (r5) single-message primitives — readAt sends Count = uint32(len(p)) with the caller's offset and offers p as payload destination, copies when the decoded payload does not alias p, returns len(Data) and io.EOF exactly under len(Data) == 0 && len(p) > 0; writeAt sends p un-copied with the caller's offset and returns the server's count. (r6, continued) largestFixedSize really is the largest fixed size (C13.r4) and the payload size in force is derived from the announced message size (C12.r5); (r7) the reply of each chunk is received whole however the transport segments it (the vectored-read rules C17.r2/r3). (r8) a chunk's reply carries what the backend produced: the server's read buffer goes back to its pool only after the reply was written (the rule of C18.r4).",
 		assumptions: []string{"that the chunks sum to len(p) for every size, and behaviour at exact multiples, follow from r2–r4 but are not computed", "the payload size in force is the one C13.r4 bounds"},
 	})
 }
@@ -248,6 +248,9 @@ func checkC11(r *Run) {
 		// r7: a chunk's reply is received whole however the transport cuts it (C17.r2/r3: the
 		// vectored read of header, fixed part and payload advances by exactly what arrived)
 		r.borrow(checkC17, map[string]string{"r2": "r7", "r3": "r7"})
+		// r8: the bytes of a chunk are the bytes the backend produced: a read buffer returns to
+		// its pool only through PayloadCleanup, after the reply was written (C18.r4)
+		r.borrow(checkC18, map[string]string{"r4": "r8"})
 	}
 }
 
